@@ -417,17 +417,13 @@ fn type_intersection_of_tuples(a: Vec<TyTupleField>, b: Vec<TyTupleField>) -> Ty
         match (a_fields.next(), b_fields.next()) {
             (None, None) => break,
             (None, Some(b_field)) => {
-                if !a_has_other {
-                    todo!();
-                }
-                has_other = true;
+                // without a wildcard in `a` the tuples differ in length: that is
+                // reported by the caller (append), which compares the columns
+                has_other = has_other || a_has_other;
                 fields.push(TyTupleField::Single(b_field.0, b_field.1));
             }
             (Some(a_field), None) => {
-                if !b_has_other {
-                    todo!();
-                }
-                has_other = true;
+                has_other = has_other || b_has_other;
                 fields.push(TyTupleField::Single(a_field.0, a_field.1));
             }
             (Some((a_name, a_ty)), Some((b_name, b_ty))) => {
